@@ -50,11 +50,22 @@ class C04(Prop):
     def before_op(self, case, op):
         if op[0] in ("create", "addprefix"):
             return {"refuse": case.led.expect_refusal(op)}
+        if op[0] in ("rmprefix", "move", "delete"):
+            # an edit that names the webentity it expects on the prefix(es) is conditional on that: if the named webentity does
+            # not own the prefix, the library refuses with its own error and nothing changes (so the net effect is none)
+            return {"conditional-refuse": case.led.expect_refusal(op), "map": dict(case.led.prefix_map)}
         return None
 
     def after_op(self, case, op, out, pre):
         ctx = case.ctx
-        if pre is not None:
+        if pre is not None and "conditional-refuse" in pre:
+            if pre["conditional-refuse"] and out.status == "ok":
+                ctx.fail("edit-not-refused", "%s%r names a webentity that does not own the prefix, yet the edit was carried out"
+                         % (op[0], tuple(op[1:])[:3]), case)
+            if not pre["conditional-refuse"] and out.status == "refused":
+                ctx.fail("edit-refused", "%s%r was refused although the named webentity owns the prefix(es): %r"
+                         % (op[0], tuple(op[1:])[:3], out.exc), case)
+        elif pre is not None:
             if pre["refuse"] and out.status == "ok":
                 ctx.fail("attach-not-refused", "%s %r attached a prefix that already carries a webentity" % (op[0], op[1]), case)
             if not pre["refuse"] and out.status == "refused":
